@@ -254,7 +254,53 @@ def mixed_st(draw, tier):
             "start": draw(st.sampled_from([1, 10, 100])), "step": draw(st.sampled_from([1, 5, 10]))}
 
 
+def judge_inplace(case) -> Verdict:
+    """An ACL created empty with a group_by prefix and filled in place (the way cisco_acl.aces() builds its
+    result): ungroup(), resequence, assign a permutation of the items, sort() - the numbered text comes back
+    and no entry is lost, duplicated or packed into a block."""
+    from cisco_acl import AceGroup, Acl
+
+    acl_case = dict(case["acl"])
+    G.validate_acl(acl_case)
+    prefix = case["prefix"]
+    if not acl_case["items"] or not prefix:
+        raise Invalid()
+    v = Verdict()
+    src = A.build_acl(dict(acl_case, group_by=""))
+    acl = Acl(name=acl_case["name"], platform=acl_case["platform"], group_by=prefix)
+    for obj in src.items:
+        acl.items.append(obj)
+    acl.ungroup()
+    if acl.group_by:
+        v.fail("inplace:ungroup-keeps-prefix", {"group_by": acl.group_by})
+    acl.resequence(10, 10)
+    numbered = acl.line
+    objs = list(acl.items)
+    order = list(range(len(objs)))
+    perm = case.get("perm") or [0]
+    for k in range(len(order) - 1, 0, -1):
+        j = perm[k % len(perm)] % (k + 1)
+        order[k], order[j] = order[j], order[k]
+    acl.items = [objs[k] for k in order]
+    if any(isinstance(o, AceGroup) for o in acl.items) or len(acl.items) != len(objs):
+        v.fail("inplace:assignment-regroups-an-ungrouped-acl", {"numbered": numbered, "got": acl.line,
+                                                               "top_level": [type(o).__name__ for o in acl.items]})
+    acl.sort()
+    if acl.line != numbered:
+        v.fail("inplace:sort-does-not-restore-numbered-order", {"numbered": numbered, "got": acl.line, "order": order})
+    v.nt(order != list(range(len(order))))
+    v.label("in-place-fill")
+    return v
+
+
+@st.composite
+def inplace_st(draw, tier):
+    acl = draw(G.acl_st(min_items=2, max_items=8, kmax=2, groups=False, seqs=False, group_by=False))
+    return {"acl": acl, "prefix": acl["prefix"], "perm": draw(st.lists(st.integers(0, 50), min_size=1, max_size=8))}
+
+
 SUBS = [
+    Sub("in-place-fill", judge_inplace, strategy=inplace_st, quick=600, thorough=15000),
     Sub("group-sort", judge, strategy=case_st, quick=4000, thorough=60000, shards_thorough=48),
     Sub("mixed-top-level", judge_mixed, strategy=mixed_st, quick=1500, thorough=30000),
 ]
